@@ -221,18 +221,47 @@ def run(ctx: Ctx):
         ("stat-thread-stop", lambda n: any(A.call_name(c) == "self._stat_collect_thread.stop" for c in n.calls())),
         ("stat-thread-join", lambda n: any(A.call_name(c) == "self._stat_collect_thread.join" for c in n.calls())),
     ]
+    # a join may be skipped for a thread that was never started (a node whose start() failed
+    # before it got to its threads): edges taken when `<thread>.ident is None` / not is_alive()
+    def _never_started(a):
+        if a.subject in ("self._connection_thread.ident", "self._stat_collect_thread.ident") \
+                and a.op == "is" and a.value is None:
+            return True
+        if a.subject in ("self._connection_thread.is_alive()", "self._stat_collect_thread.is_alive()") \
+                and a.op == "truthy":
+            return False
+        return None
+    unstarted = g.guard_edges(lambda t: at.label_when(t, _never_started))
+
+    def _dominated(target, by):
+        return target not in g.reach([g.entry], normal_blocked=list(by), blocked_edges=unstarted)
     prev = None
     for name, pred in seq:
         cons = f"stop:{name}"
         ctx.inst(cons)
         ns = [n for n in g.nodes if n.kind == "stmt" and pred(n)]
-        if not ns or not g.dominated(g.exit, ns):
+        if not ns or not _dominated(g.exit, ns):
             ctx.fail(cons, f.loc(), f"stop() can return without {name.replace('-', ' ')}: a node "
                      f"thread survives stop()")
-        elif prev and not g.dominated(ns[0], prev):
+        elif prev and not _dominated(ns[0], prev):
             ctx.fail(cons + "#order", g.loc(ns[0]), f"{name} is not ordered after the previous step")
         if ns and dprs and not g.can_reach(dprs[0], ns[0]):
             ctx.fail(cons + "#before-dpr", g.loc(ns[0]), f"{name} happens before the DPR exchange")
+        if ns and name.endswith("-join"):
+            # start() marks the node as started before it binds its sockets and starts its
+            # threads: a bind that fails leaves a "started" node whose threads never ran, and
+            # Thread.join() of a thread that was not started raises RuntimeError - before stop()
+            # has closed the listening sockets and stopped the applications
+            thr = "self._connection_thread" if name.startswith("conn") else "self._stat_collect_thread"
+            fx = must_facts(g, at, ns[0])
+            guarded = any((f_[0] == f"{thr}.ident" and f_[1] == "is" and f_[2] is None and f_[3] is False)
+                          or (f_[0] == f"{thr}.is_alive()" and f_[1] == "truthy" and f_[3] is True) for f_ in fx)
+            ctx.inst(cons + "#only-started")
+            if not guarded:
+                ctx.fail(cons + "#only-started", g.loc(ns[0]), f"`{ns[0].text(60)}` joins the thread whether or not it "
+                         f"was started: on a node whose start() failed half-way (address in use) stop() "
+                         f"raises RuntimeError here, the bound sockets stay open, the applications keep "
+                         f"running, and every further stop()/start() is refused")
         prev = ns or prev
     for attr, what in (("tcp_sockets", "TCP listening"), ("sctp_sockets", "SCTP listening")):
         cons = f"stop:close({attr})"
@@ -245,7 +274,7 @@ def run(ctx: Ctx):
             if any(any(A.call_name(c) == f"{tv}.close" for c in n.calls()) for n in body) \
                     and g.dominated(g.exit, [lp]):
                 ok = True
-                if prev and not g.dominated(lp, prev):
+                if prev and not _dominated(lp, prev):
                     ctx.fail(cons + "#order", g.loc(lp), "listening sockets are closed before the node threads were stopped")
         if not ok:
             ctx.fail(cons, f.loc(), f"stop() does not close every {what} socket")
